@@ -29,7 +29,7 @@ SECURE_ORIGINS = {   # fn -> count (reviewed)
     N + 'verify_dnskey': 1,
     N + 'verify_rrset_with_dnskey': 1,
     N + 'verify_nsec': 4,
-    N + 'nsec3::validate_nodata_response': 6,
+    N + 'nsec3::validate_nodata_response': 5,   # 6 before fix af62ef8 removed the apex arm that rested on no NSEC3 record (F22)
     N + 'nsec3::validate_nxdomain_response': 2,
 }
 INSECURE_ORIGINS = {
